@@ -70,19 +70,33 @@ Definition expo (x : str) : option Z :=
 Definition mkq (m base frac ebase e : Z) : Z * Z :=
   if 0 <=? e then (m * ebase ^ e, base ^ frac) else (m, base ^ frac * ebase ^ (- e)).
 
-(** an unsigned number: (numerator, denominator, written with integer syntax) *)
+(** an unsigned number: (numerator, denominator, written with integer syntax).
+    As big.Float.SetString reads it: a mantissa in the base of the prefix with an optional
+    fraction, then an optional exponent — 'p' (power of two) after any mantissa, 'e' (power of
+    ten) after a mantissa that is not hexadecimal. *)
+Definition parse_exp (m base frac : Z) (rest : str) : option (Z * Z * bool) :=
+  match rest with
+  | [] => None
+  | c :: ex =>
+      if is_char c "p" "P" then
+        match expo ex with
+        | Some e => let '(n, d) := mkq m base frac 2 e in Some (n, d, false)
+        | None => None
+        end
+      else if negb (base =? 16) && is_char c "e" "E" then
+        match expo ex with
+        | Some e => let '(n, d) := mkq m base frac 10 e in Some (n, d, false)
+        | None => None
+        end
+      else None
+  end.
+
 Definition parse_based (base : Z) (t : str) : option (Z * Z * bool) :=
   let '(m, frac, nd, dot, rest) := mant base t 0 0 0 false in
   if nd =? 0 then None
   else match rest with
-       | [] => if dot then None else Some (m, 1, true)
-       | c :: ex =>
-           if (base =? 16) && is_char c "p" "P" then
-             match expo ex with
-             | Some e => let '(n, d) := mkq m 16 frac 2 e in Some (n, d, false)
-             | None => None
-             end
-           else None
+       | [] => if dot then Some (m, base ^ frac, false) else Some (m, 1, true)
+       | _ => parse_exp m base frac rest
        end.
 
 Definition parse_decimal (legacy_octal : bool) (x : str) : option (Z * Z * bool) :=
@@ -97,13 +111,7 @@ Definition parse_decimal (legacy_octal : bool) (x : str) : option (Z * Z * bool)
                     else Some (m, 1, true)
                 | _ => Some (m, 1, true)
                 end
-       | c :: ex =>
-           if is_char c "e" "E" then
-             match expo ex with
-             | Some e => let '(n, d) := mkq m 10 frac 10 e in Some (n, d, false)
-             | None => None
-             end
-           else None
+       | _ => parse_exp m 10 frac rest
        end.
 
 Definition parse_unsigned (legacy_octal : bool) (x : str) : option (Z * Z * bool) :=
